@@ -430,9 +430,12 @@ var excClasses = map[string]Class{
 	"Base":  {Ext: "", Impl: nil},
 	"ErrA":  {Ext: "Base", Impl: []string{"Marked"}},
 	"ErrA2": {Ext: "ErrA"},
-	"ErrB":  {Ext: "Base"},
+	"ErrB":  {Ext: "Base", Impl: []string{"Rooted"}},
 	"Other": {Ext: ""},
 }
+
+// Marked extends Tagged extends Rooted: ErrA implements Marked directly, ErrA2 inherits it, ErrB implements Rooted
+var excIfaces = []Iface{{Name: "Rooted"}, {Name: "Tagged", Ext: []string{"Rooted"}}, {Name: "Marked", Ext: []string{"Tagged"}}}
 
 var catchLists = [][]Catch{
 	nil,
@@ -446,12 +449,15 @@ var catchLists = [][]Catch{
 	{{Types: []string{"ErrB", "Other"}, Var: "e"}},
 	{{Types: []string{"Other"}, Var: "e"}, {Types: []string{"Exception"}, Var: "e"}},
 	{{Types: []string{"Throwable"}, Var: "e"}},
+	{{Types: []string{"Tagged"}, Var: "e"}},
+	{{Types: []string{"ErrB"}, Var: "e"}, {Types: []string{"Rooted"}, Var: "e"}},
+	{{Types: []string{"Marked"}, Var: "e"}, {Types: []string{"Rooted"}, Var: "e"}},
 }
 
 var BodyExits = []string{"fall", "throwA", "throwA2", "throwB", "throwOther", "return", "break", "continue"}
 var CatchExits = []string{"fall", "rethrow", "thrownew", "return"}
 var FinExits = []string{"none", "fall", "return", "throw", "break"}
-var TryCtxs = []string{"top", "loop", "func"}
+var TryCtxs = []string{"top", "loop", "func", "rec", "reccatch"}
 
 func exitStmts(kind string, site int) []N {
 	switch kind {
@@ -486,7 +492,7 @@ func validIn(ctx, exit string) bool {
 	case "break", "continue":
 		return ctx == "loop"
 	case "return":
-		return ctx == "func"
+		return ctx == "func" || ctx == "rec" || ctx == "reccatch"
 	}
 	return true
 }
@@ -511,10 +517,38 @@ func tryStmt(base int, body []N, bodyExit string, catches []Catch, catchExit, fi
 	return Try(b, cs, finExit != "none", fin)
 }
 
+// withRecursion returns a copy of try statement t that calls run($n - 1) while $n > 0: at the start of
+// its try block, or (inCatch) at the start of each catch block (the try block then needs to throw).
+func withRecursion(t N, inCatch bool) N {
+	rec := If([]Arm{{C: Bin(">", Var("n"), Int(0)), Body: []N{Call("q", "run", Bin("-", Var("n"), Int(1))), Echo(Var("q"))}}}, nil)
+	c := N{}
+	for k, v := range t {
+		c[k] = v
+	}
+	if !inCatch {
+		c["body"] = append([]any{rec}, t["body"].([]any)...)
+		return c
+	}
+	var cs []any
+	for _, x := range t["catches"].([]any) {
+		cl := N{}
+		for k, v := range x.(N) {
+			cl[k] = v
+		}
+		cl["body"] = append([]any{rec}, cl["body"].([]any)...)
+		cs = append(cs, cl)
+	}
+	if cs == nil {
+		cs = []any{}
+	}
+	c["catches"] = cs
+	return c
+}
+
 // place puts the try statement into its context and wraps the whole program in an outer catch-all
 // so that most shapes end normally (uncaught outcomes are a separate family).
 func place(ctx string, t N, outerCatch bool) *Program {
-	p := &Program{Funcs: map[string]Func{}, Classes: excClasses, Ifaces: []string{"Marked"}}
+	p := &Program{Funcs: map[string]Func{}, Classes: excClasses, Ifaces: excIfaces}
 	var core []N
 	switch ctx {
 	case "top":
@@ -524,6 +558,10 @@ func place(ctx string, t N, outerCatch bool) *Program {
 	case "func":
 		p.Funcs["run"] = Func{Body: []N{t, Mark(5), Return(Int(0))}}
 		core = []N{Call("r", "run"), Echo(Var("r")), Mark(3)}
+	case "rec", "reccatch":
+		// the same try statement is re-entered while an outer activation of it is still open
+		p.Funcs["run"] = Func{Params: []Param{{Name: "n"}}, Body: []N{withRecursion(t, ctx == "reccatch"), Mark(5), Return(Var("n"))}}
+		core = []N{Call("r", "run", Int(2)), Echo(Var("r")), Mark(3)}
 	}
 	if outerCatch {
 		p.Main = []N{Mark(1), Try(core, []Catch{{Types: []string{"Throwable"}, Var: "o", Body: []N{Mark(6), EchoMsg("o")}}}, true, []N{Mark(7)}), Mark(2)}
